@@ -1264,8 +1264,17 @@ void ppDiv(word q[], word r[], const word a[], size_t n, const word b[],
 	shift = (wwBitSize(b + m - 1, 1) - 1) % B_PER_W;
 	// нормализация не нужна?
 	if (shift == 0)
+	{
+		// делитель -- константа 1?
+		if (m == 1)
+		{
+			wwCopy(q, a, n);
+			r[0] = 0;
+			return;
+		}
 		// обнуляем старшие слова q и r
 		q[n - m] = 0, r[--m] = 0;
+	}
 	else
 		// сдвигаем divisor и divident
 		shift = B_PER_W - shift,
@@ -1341,8 +1350,16 @@ void ppMod(word r[], const word a[], size_t n, const word b[], size_t m,
 	shift = (wwBitSize(b + m - 1, 1) - 1) % B_PER_W;
 	// нормализация не нужна?
 	if (shift == 0)
+	{
+		// делитель -- константа 1?
+		if (m == 1)
+		{
+			r[0] = 0;
+			return;
+		}
 		// обнуляем старшее слово r
 		r[--m] = 0;
+	}
 	else
 		// сдвигаем divisor и divident
 		shift = B_PER_W - shift,
